@@ -265,7 +265,7 @@ class DefaultWorker(Worker):
             os.environ[k] = v
 
         # ----------------------------------------------------------------------
-        def _worker_proc(res_lock):
+        def _worker_proc(res_lock, res_done):
             # FIXME: do we still need this thread?
 
             import setproctitle
@@ -306,6 +306,7 @@ class DefaultWorker(Worker):
 
             with res_lock:
                 self._result_queue.put(res)
+                res_done.set()
         # ----------------------------------------------------------------------
 
 
@@ -317,7 +318,9 @@ class DefaultWorker(Worker):
           #                 task['uid'], task['pid'], tout)
 
             res_lock = mp.Lock()
-            worker_proc = mp.Process(target=_worker_proc, args=(res_lock,))
+            res_done = mp.Event()
+            worker_proc = mp.Process(target=_worker_proc,
+                                     args=(res_lock, res_done))
             worker_proc.daemon = True
             worker_proc.start()
             worker_proc.join(timeout=tout)
@@ -335,6 +338,12 @@ class DefaultWorker(Worker):
                     self._log.debug('put 2 result: task %s', task['uid'])
                     self._result_queue.put(res)
                     self._log.debug('worker_proc killed: %s', task['uid'])
+
+                elif not res_done.is_set():
+                    # the process ended (exit, signal) without reporting
+                    err = 'task process died (%s)' % worker_proc.exitcode
+                    exc = ['RuntimeError("task process died")', None]
+                    self._result_queue.put([task, 'None', err, 1, None, exc])
 
         except Exception as e:
 
